@@ -715,6 +715,9 @@ class Daemon(object):
             if weak: raise TypeError("Classes cannot be registered with weak=True.")
             if not hasattr(obj_or_class, "_pyroInstancing"):
                 obj_or_class._pyroInstancing = ("session", None)
+        if objectId == core.DAEMON_NAME and core.DAEMON_NAME in self.objectsById:
+            # (also when forced: every new connection's handshake goes through that object)
+            raise errors.DaemonError("the daemon's own object cannot be replaced")
         if not force:
             if hasattr(obj_or_class, "_pyroId") and obj_or_class._pyroId != "":  # check for empty string is needed for Cython
                 pyro_id = obj_or_class._pyroId
